@@ -166,6 +166,9 @@ def ata_args(draw, cmd, keep, full_width=False):
         a["extend"] = draw(st.integers(0, 1))
     if keep.get("data"):
         a["data"] = "AUTO"  # replaced by a buffer of exactly the announced length by the caller
+        if a["t_length"] == 3 and not a.get("extra_tl") and draw(st.booleans()):
+            # the TPSIU carries the length and the initiator does not state it: the caller's buffer is the transfer
+            a["data"] = {"tpsiu": draw(st.sampled_from([1, 8, 512, 520]))}
     return a
 
 
@@ -175,6 +178,9 @@ def ata_expected_len(a):
     tl = {0: 0, 1: a["fetures"], 2: a["count"], 3: a.get("extra_tl") or 0}[a["t_length"]]
     if a["t_length"] == 0:
         return 0
+    d = a.get("data")
+    if a["t_length"] == 3 and not a.get("extra_tl") and d is not None and not isinstance(d, str):
+        return d["tpsiu"] if isinstance(d, dict) else len(d)
     if not a["byte_block"]:
         unit = 1
     elif not a["t_type"]:
@@ -190,6 +196,8 @@ def materialize(a):
     d = a.get("data")
     if isinstance(d, dict) and "fill" in d:
         a["data"] = bytes([d["fill"]]) * d["n"]
+    elif isinstance(d, dict) and "tpsiu" in d:
+        a["data"] = bytearray(d["tpsiu"])
     elif d == "AUTO":
         n = ata_expected_len(a)
         a["data"] = bytearray(n) if n else None
